@@ -152,12 +152,14 @@ func (g *gatedReader) Read(p []byte) (int, error) {
 
 // faultDest is the destination FS: it counts calls, fails the chosen one, and can pause inside Write/Close.
 type faultDest struct {
-	inner  *mem.FS
-	mu     sync.Mutex
-	n      int
-	failAt int
-	fired  string
-	log    []string
+	inner      *mem.FS
+	mu         sync.Mutex
+	n          int
+	failAt     int
+	persistent bool // every call from failAt on fails (a destination that ran out of space)
+	fired      string
+	log        []string
+	writeGate  chan struct{} // if set, Write blocks until it is closed (a slow destination), at most a few seconds
 }
 
 func (d *faultDest) call(site string) error {
@@ -166,8 +168,10 @@ func (d *faultDest) call(site string) error {
 	idx := d.n
 	d.n++
 	d.log = append(d.log, site)
-	if idx == d.failAt {
-		d.fired = site
+	if idx == d.failAt || d.persistent && d.failAt >= 0 && idx > d.failAt {
+		if d.fired == "" {
+			d.fired = site
+		}
 		return errFill
 	}
 	return nil
@@ -207,6 +211,12 @@ type faultDestFile struct {
 func (f *faultDestFile) Read(p []byte) (int, error)        { return f.f.Read(p) }
 func (f *faultDestFile) Stat() (hackpadfs.FileInfo, error) { return f.f.Stat() }
 func (f *faultDestFile) Write(p []byte) (int, error) {
+	if g := f.d.writeGate; g != nil {
+		select {
+		case <-g:
+		case <-time.After(1 * time.Second):
+		}
+	}
 	if err := f.d.call("Write"); err != nil {
 		return 0, err
 	}
@@ -226,6 +236,7 @@ type c13case struct {
 	Cut     int    `json:"cut,omitempty"`
 	Mode    string `json:"mode,omitempty"`
 	Rep     int    `json:"rep,omitempty"`
+	Gate    bool   `json:"gate,omitempty"` // destination writes are held back until the post-mortem Opens were made
 }
 
 func c13cutPoints(a *c13archive, dense bool) []int {
@@ -268,6 +279,9 @@ func c13cases(env *core.Env) []c13case {
 		for _, cut := range c13cutPoints(a, env.Thorough()) {
 			for _, mode := range []string{"truncate", "readerror", "cancel"} {
 				cs = append(cs, c13case{Part: "cut", Archive: ai, Cut: cut, Mode: mode})
+			}
+			if ai == 2 { // all entries of this archive are small: only background writers touch the (held back) destination
+				cs = append(cs, c13case{Part: "cut", Archive: ai, Cut: cut, Mode: "cancel", Gate: true}, c13case{Part: "cut", Archive: ai, Cut: cut, Mode: "readerror", Gate: true})
 			}
 		}
 		cs = append(cs, c13case{Part: "destfault", Archive: ai})
@@ -429,7 +443,16 @@ func c13drive(a *c13archive, g *gatedReader, dest *faultDest, ctx context.Contex
 	for _, o := range opens {
 		check(o, "during")
 	}
-	// afterwards: every entry once more
+	// afterwards: every entry once more (with a gated destination: while its background writes are still held back)
+	defer func() {
+		if dest != nil && dest.writeGate != nil {
+			select {
+			case <-dest.writeGate:
+			default:
+				close(dest.writeGate)
+			}
+		}
+	}()
 	for _, n := range names {
 		o := &c13open{name: n, started: -1}
 		f, err := t.Open(n)
@@ -469,7 +492,13 @@ func c13run(env *core.Env, idx int) core.CaseResult {
 		g := &gatedReader{a: a, cutAt: cs.Cut, mode: cs.Mode, cancel: cancel, pauseAt: pause, reached: make(chan struct{}), resume: make(chan struct{}), afterCut: make(chan struct{}), progress: &progress}
 		where := c13where(a, cs.Cut)
 		sig := fmt.Sprintf("C13|cut|%s|%s", cs.Mode, where)
-		c13drive(a, g, nil, ctx, 1+r.Intn(3), r, &res, sig, cs)
+		var dest *faultDest
+		if cs.Gate {
+			dest = &faultDest{failAt: -1, writeGate: make(chan struct{})}
+			dest.inner, _ = mem.NewFS()
+			sig += "|slow-destination"
+		}
+		c13drive(a, g, dest, ctx, 1+r.Intn(3), r, &res, sig, cs)
 		res.Nontrivial = true
 		res.Seen("cut_situations", cs.Mode+"|"+where)
 	case "race":
@@ -501,6 +530,15 @@ func c13run(env *core.Env, idx int) core.CaseResult {
 			c13drive(a, g, d, context.Background(), 1+r.Intn(2), r, &res, "C13|destfault|"+site, map[string]any{"case": cs, "fault_index": k, "site": site})
 			res.Count("dest_fault_runs", 1)
 			res.Seen("dest_fault_sites", site)
+			if k%3 == 0 && len(res.Violations) == 0 {
+				// the same, but the destination keeps failing from this call on (several background writers fail)
+				d := &faultDest{failAt: k, persistent: true}
+				d.inner, _ = mem.NewFS()
+				var prog2 int64
+				g := &gatedReader{a: a, cutAt: -1, mode: "none", pauseAt: -1, progress: &prog2}
+				c13drive(a, g, d, context.Background(), 1, r, &res, "C13|destfault-persistent|"+site, map[string]any{"case": cs, "fails_from_index": k, "site": site})
+				res.Count("dest_fault_runs", 1)
+			}
 		}
 		res.Nontrivial = true
 	}
@@ -567,10 +605,11 @@ func c13pubsub(r *rand.Rand, res *core.CaseResult) {
 	}
 	for _, k := range keys {
 		k := k
+		delay := r.Intn(3)
 		wg.Add(1)
 		go func() {
 			defer wg.Done()
-			for j := 0; j < r.Intn(3); j++ {
+			for j := 0; j < delay; j++ {
 				time.Sleep(time.Microsecond)
 			}
 			atomic.StoreInt32(emitted[k], 1)
